@@ -41,6 +41,9 @@ def make_case(ons, vow, sep, filling, words_per_utt, with_phones, strip, toleran
         if out[0] != 'ok':
             if out[1] != 'ValueError':
                 return 'failure is not a ValueError: ' + out[1]
+            if tolerant:
+                # (the generated texts contain no syllable separator, the only thing tolerant mode refuses)
+                return 'tolerant mode raised ValueError instead of dropping the utterance that cannot be syllabified'
             if valid and closed and not tolerant:
                 if not multi:
                     return 'a text of syllabifiable words raised ' + out[1]
